@@ -1,0 +1,34 @@
+//go:build verif
+
+package uci
+
+import (
+	"github.com/paulsonkoly/chess-3/board"
+	"github.com/paulsonkoly/chess-3/move"
+
+	. "github.com/paulsonkoly/chess-3/chess"
+)
+
+// Verification hooks (build tag verif). Add-only: nothing here is referenced by
+// the engine itself.
+
+// VerifSoftLimit exposes timeControl.softLimit.
+func VerifSoftLimit(wtime, btime, winc, binc, mtime int64, stm Color) int64 {
+	return timeControl{wtime: wtime, btime: btime, winc: winc, binc: binc, mtime: mtime}.softLimit(stm)
+}
+
+// VerifHardLimit exposes timeControl.hardLimit.
+func VerifHardLimit(wtime, btime, winc, binc, mtime int64, stm Color) int64 {
+	return timeControl{wtime: wtime, btime: btime, winc: winc, binc: binc, mtime: mtime}.hardLimit(stm)
+}
+
+// VerifTimedMode exposes timeControl.timedMode.
+func VerifTimedMode(wtime, btime, winc, binc, mtime int64, stm Color) bool {
+	return timeControl{wtime: wtime, btime: btime, winc: winc, binc: binc, mtime: mtime}.timedMode(stm)
+}
+
+// VerifParseUCIMove exposes parseUCIMove.
+func VerifParseUCIMove(b *board.Board, s string) (move.Move, error) { return parseUCIMove(b, s) }
+
+// VerifBoard exposes the driver's current board.
+func (d *Driver) VerifBoard() *board.Board { return d.board }
